@@ -14,7 +14,7 @@ from outrank.algorithms.feature_ranking import ranking_mi_numba as cut
 
 ID = 'C01'
 RULE = ('Exhaustive: every ordered pair of set partitions of [n] (restricted growth strings), n<=6 quick / '
-        'n<=8 thorough, each realised with canonical codes and with a sparse injective recoding into [0,2^20). '
+        'n<=7 thorough plus, for n=8, a seed-chosen quarter of the Y partitions against all X partitions, each realised with canonical codes and with a sparse injective recoding into [0,2^20). '
         'Generated: element-wise pairs (n<=64) and PRNG-built structured families (independent, function, noisy '
         'copy, constant / all-distinct side, dominant value + singletons, few large + many singleton strata, '
         'row-permuted copy, identical) with n up to 2000 (quick) / 10^6 (thorough). Non-trivial = both sides '
@@ -137,6 +137,8 @@ def run(ctx):
     for n in range(1, max_n + 1):
         nsh = 1 if n <= 5 else 16 if n == 6 else 64
         for s in range(nsh):
+            if n == 8 and s % 4 != ctx.seed % 4:
+                continue   # n = 8: a quarter of the Y partitions (chosen by the seed) against ALL X partitions: 4.3M of 17.1M pairs
             jobs.append((n, s, nsh, ctx.seed))
     results = run_sharded(lambda i: _enumerate_shard(jobs[i]), len(jobs))
     enum_evals = 0
@@ -150,7 +152,8 @@ def run(ctx):
         if fail is not None:
             fails.append(fail)
     ctx.stats.per_kind['C01/exhaustive'] = {'evaluations': enum_evals, 'nontrivial': ctx.stats.nontrivial_count_only}
-    ctx.extra['exhaustive_scope'] = f'all ordered pairs of set partitions of [n], n<=%d, x2 codings: %d evaluations' % (max_n, enum_evals)
+    ctx.extra['exhaustive_scope'] = ('all ordered pairs of set partitions of [n], n<=%d%s, x2 codings: %d evaluations'
+                                     % (min(max_n, 7), ' (+ a quarter of n=8)' if max_n == 8 else '', enum_evals))
     ctx.exhaustive = False  # the generated part is not exhaustive; the sub-scope above is
     ctx.extra['exhaustive_subscope_complete'] = not fails
     if fails:
